@@ -21,6 +21,10 @@ META['C16'] = {
 JOBS['C16'] = [
     {'name': 'uc_nav', 'harness': 'c16_uc.c', 'units': ['uc'],
      'defs': {'quick': {'N': 5}, 'thorough': {'N': 7}}, 'nslices': {'quick': 16, 'thorough': 32}, 'split_depth': 5},
+    # the regex engine's private decoders and its stepping over the line: bracket patterns with multi-byte members
+    {'name': 'regex_offsets_utf8', 'harness': 'c10_re.c', 'units': ['rset', 'regex', 'sbuf', 'uc'], 'track': 're_rec',
+     'defs': {'quick': {'LL': 2, 'TSET': 1}, 'thorough': {'LL': 3, 'TSET': 1, 'WIDE': 1}},
+     'expect_reach': ['end', 'found', 'notfound', 'agree'], 'timeout': {'quick': 280, 'thorough': 1700}, 'max_steps': 5000000},
 ]
 
 # ---------------------------------------------------------------- C12
